@@ -13,12 +13,14 @@ package main
 
 import (
 	"bytes"
+	"encoding/base64"
 	"fmt"
 	"regexp"
 	"sort"
 	"strconv"
 	"strings"
 	"time"
+	"unicode/utf8"
 
 	"github.com/elliotchance/gedcom/v39/html/core"
 )
@@ -430,7 +432,7 @@ func init() {
 		{ // how the token variants were spread over the value kinds
 			kinds, pairs := map[string]bool{}, 0
 			for k := range cover {
-				if strings.HasPrefix(k, "variant:(suffix)/") {
+				if strings.HasPrefix(k, "variant:(suffix)/") || strings.HasPrefix(k, "variant:(lead)/") {
 					continue
 				}
 				if strings.HasPrefix(k, "variant:") {
@@ -438,7 +440,7 @@ func init() {
 					kinds[strings.SplitN(k[8:], "/", 2)[0]] = true
 				}
 			}
-			c.Notes = append(c.Notes, fmt.Sprintf("taint variants: %d of %d (value kind x special-character set) combinations generated, %d value kinds x %d variants (all five, each single character, each pair, an attribute-injection payload; the same with full-width / small-form compatibility characters; half of the values end in entity-looking text: &nbsp; &amp; &lt; &#60; &nbsp)",
+			c.Notes = append(c.Notes, fmt.Sprintf("taint variants: %d of %d (value kind x special-character set) combinations generated, %d value kinds x %d variants (all five, each single character, each pair, an attribute-injection payload; the same with full-width / small-form compatibility characters; half of the values end in entity-looking text: &nbsp; &amp; &lt; &#60; &nbsp; a quarter have an invalid UTF-8 lead byte C3/E9/F1/F5 before every special character)",
 				pairs, len(kinds)*len(c18Variants), len(kinds), len(c18Variants)))
 			for _, ch := range []string{"<", ">", "\"", "'", "&"} {
 				for k := range kinds {
@@ -541,14 +543,27 @@ func c18InjectedAttrs(page, twin string) []string {
 	return out
 }
 
-// c18Detaint replaces the five special characters (they only occur inside taint tokens) by '-':
-// the twin document has the same shape, the same file keys and the same sort order.
+// c18Detaint replaces the special characters (they only occur inside taint tokens and their
+// suffixes) by '!': harmless everywhere, and like the characters it replaces outside the class
+// [a-z0-9_-] of file keys, so the twin document has the same shape, the same file keys (also next
+// to an invalid lead byte, where both collapse into one '-') and the same sort order.
 func c18Detaint(text string) string {
-	pairs := []string{"<", "-", ">", "-", "\"", "-", "'", "-", "&", "-"}
+	pairs := []string{"<", "!", ">", "!", "\"", "!", "'", "!", "&", "!"}
 	for _, ch := range c18CompatChars {
-		pairs = append(pairs, ch, "-")
+		pairs = append(pairs, ch, "!")
 	}
 	return strings.NewReplacer(pairs...).Replace(text)
+}
+
+// c18FixInput adds a base64 copy of every string of a failing input that is not valid UTF-8 (JSON
+// cannot carry it byte for byte).
+func c18FixInput(in map[string]interface{}) map[string]interface{} {
+	for k, v := range in {
+		if s, ok := v.(string); ok && !utf8.ValidString(s) {
+			in[k+"_base64"] = base64.StdEncoding.EncodeToString([]byte(s))
+		}
+	}
+	return in
 }
 
 var c18KeyRe = regexp.MustCompile(`[^a-z_0-9-]+`)
@@ -596,7 +611,7 @@ func c18PageBatch(c *Ctx, lo, hi int, seenHit map[string]bool, cover map[string]
 		}
 		if i%4 == 1 { // html query output
 			qs := []string{".Individuals", ".Individuals | .Name", ".Individuals | .Name | .String", ".Sources", ".Families",
-				".Individuals | { name: .Name | .String, born: .Birth | .String }", ".Places", ".Nodes", "?", ".Individuals | First(1)"}
+				".Individuals | { name: .Name | .String, born: .Birth | .String }", ".Places", ".Nodes", "?", ".Individuals | First(1)", ".Warnings"}
 			mk(d, &c18Job{Kind: "query", Gedcom: []byte(d.Text), Queries: qs}, "query -format html")
 		}
 	}
@@ -660,6 +675,9 @@ func c18PageBatch(c *Ctx, lo, hi int, seenHit map[string]bool, cover map[string]
 	firstKey := make([]string, len(pages))
 	for i, p := range pages {
 		c.Count("page:" + p.kind)
+		if p.kind == "query" && bytes.Contains(p.data, []byte(`<th scope="col">Description</th></tr></thead><tr>`)) {
+			c.Count("page:query/.Warnings table with rows")
+		}
 		hits := c18ScanPage(p.data)
 		sig := "page/" + p.kind + "/" + strings.Fields(p.what)[0]
 		for _, h := range hits {
@@ -679,7 +697,7 @@ func c18PageBatch(c *Ctx, lo, hi int, seenHit map[string]bool, cover map[string]
 					in["minimal_gedcom"] = m
 				}
 			}
-			c.Oracle(key, "a "+vk+" reaches "+h.Sink+" of the "+p.kind+" page unescaped", in, h.String(),
+			c.Oracle(key, "a "+vk+" reaches "+h.Sink+" of the "+p.kind+" page unescaped", c18FixInput(in), h.String(),
 				"every special character of the value HTML-escaped")
 			seenHit[key+" <- "+vk] = true
 		}
@@ -706,7 +724,7 @@ func c18PageBatch(c *Ctx, lo, hi int, seenHit map[string]bool, cover map[string]
 		if g2, ok := p.input["gedcom2"]; ok {
 			in["gedcom2"] = g2
 		}
-		return in
+		return c18FixInput(in)
 	}
 	for i, p := range pages {
 		if outs[i] != "1" {
@@ -728,7 +746,7 @@ func c18PageBatch(c *Ctx, lo, hi int, seenHit map[string]bool, cover map[string]
 			if inj := c18InjectedAttrs(a, b); len(inj) > 0 {
 				what = "a value in the file injects an attribute into the " + p.kind + " page: " + strings.Join(inj, ", ")
 			}
-			c.Oracle(firstKey[i], what, mkIn(p), a, b+" (same document with < > \" ' & replaced by -)")
+			c.Oracle(firstKey[i], what, mkIn(p), a, b+" (same document with < > \" ' & replaced by !)")
 		}
 	}
 	c.Dist["page:compared-with-twin"] += nTwin
